@@ -162,3 +162,27 @@ def loop_table_values(funcnode, name, module=None):
                 return None
         found = True
     return out if found else None
+
+
+def dedup_sites(funcnode):
+    """[(append call, element, membership test key, [keys added to the seen-set])] for the pattern
+        if K not in SEEN: OUT.append(E); SEEN.add(K')
+    (SEEN a local set / dict / list other than OUT, or OUT itself: `if E not in OUT`) anywhere in the function, nested
+    functions included.  The pattern keeps the first of all elements that agree on K."""
+    from .astutil import compare_parts
+    out = []
+    for n in ast.walk(funcnode):
+        if not isinstance(n, ast.If):
+            continue
+        cp = compare_parts(n.test)
+        if not cp or cp[0] is not ast.NotIn or not isinstance(cp[2], ast.Name):
+            continue
+        key, seen = cp[1], cp[2].id
+        apps = [c for st in n.body for c in ast.walk(st) if isinstance(c, ast.Call) and isinstance(c.func, ast.Attribute) and
+                c.func.attr == 'append' and isinstance(c.func.value, ast.Name) and len(c.args) == 1]
+        adds = [c.args[0] for st in n.body for c in ast.walk(st) if isinstance(c, ast.Call) and isinstance(c.func, ast.Attribute) and
+                c.func.attr == 'add' and is_name(c.func.value, seen) and len(c.args) == 1]
+        for a in apps:
+            if a.func.value.id == seen or adds:
+                out.append((a, a.args[0], key, adds))
+    return out
